@@ -590,7 +590,32 @@ inline bool plan_effect(Model const& M, ModelTraits const& T, Op const& op, Effe
 		e.expect_no_alloc = true;
 		return true;
 	}
+	case O_REF_ASSIGN: {  // array_ref over the storage of array a = array_ref over the storage of array b (flat copy)
+		if(!slot_ok(D, op.a, T) || !slot_ok(D, op.b, T) || op.a == op.b) return false;
+		MArr const& a0 = M.at(D, op.a);
+		MArr const& b0 = M.at(D, op.b);
+		if(!a0.alive || !b0.alive || !a0.same_extents(b0) || a0.count() == 0) return false;
+		if(op.var < 0 || op.var > 3) return false;
+		MArr& a        = tgt(0, D, op.a);
+		a.v            = b0.v;
+		e.viewwrite[0] = true;
+		e.elems        = a0.count();
+		e.expect_no_alloc = e.expect_base_unchanged = true;
+		static char const* vn[] = {"const-ref", "moved-ref", "rvalue-dest", "rvalue-dest/moved-ref"};
+		var(vn[op.var]);
+		return true;
+	}
 	case O_COMPARE: {
+		if(op.var == 1) {  // two owning arrays of any extents (array_ref::operator==)
+			if(op.ca.n || op.cb.n || op.da != op.db) return false;
+			if(!slot_ok(D, op.a, T) || !slot_ok(D, op.b, T) || op.a == op.b) return false;
+			if(!M.at(D, op.a).alive || !M.at(D, op.b).alive || M.at(D, op.a).count() == 0 || M.at(D, op.b).count() == 0) return false;
+			e.reads_only = true;
+			e.elems      = M.at(D, op.a).count();
+			e.expect_no_alloc = true;
+			var("arrays");
+			return true;
+		}
 		MView x, y;
 		if(!model_view(M, T, op.da, op.a, op.ca, x) || !model_view(M, T, op.db, op.b, op.cb, y)) return false;
 		if(!x.same_extents(y)) return false;  // operands of different shape are C07 territory (and mis-compare at the pinned commit, DESIGN 9)
